@@ -632,6 +632,38 @@ func c12DriveGsfa(c *c12kit.Case, s *c12kit.Stepper) {
 	}
 	s.Do("gsfa.GsfaReader.Meta", func() error { r.Version(); r.GetEpoch(); return nil })
 	c12UseMeta(s, "gsfa.GsfaReader.Meta", r.Meta())
+	// the same index through the multi-epoch reader (what getSignaturesForAddress and StreamTransactions use):
+	// paging after a signature that is not in the list, and a slot window below every entry - neither query
+	// ever fills its limit, so only the end of the list (or an error) can end the walk
+	var multi *gsfa.GsfaReaderMultiepoch
+	r.SetEpoch(7) // what the epoch loader does after opening the index
+	if !s.Do("gsfa.NewGsfaReaderMultiepoch", func() (err error) {
+		multi, err = gsfa.NewGsfaReaderMultiepoch([]*gsfa.GsfaReader{r})
+		return
+	}) || multi == nil {
+		return
+	}
+	fetch := func(epoch uint64, l linkedlog.OffsetAndSizeAndSlot) (*ipldbindcode.Transaction, error) {
+		buf := make([]byte, 65)
+		buf[0] = 1
+		binary.LittleEndian.PutUint64(buf[1:], l.Offset)
+		tx := &ipldbindcode.Transaction{Slot: int(l.Slot & 0x7fffffffffff)}
+		tx.Data.Data = buf
+		return tx, nil
+	}
+	absent := solana.Signature{0xEE, 0xEE, 0xEE}
+	for _, pk := range pks {
+		pk := pk
+		s.Do("gsfa.GsfaReaderMultiepoch.Get", func() error { _, err := multi.Get(ctx, pk, 1000, fetch); return err })
+		s.Do("gsfa.GsfaReaderMultiepoch.GetBeforeUntil", func() error {
+			_, err := multi.GetBeforeUntil(ctx, pk, 1000, &absent, nil, fetch)
+			return err
+		})
+		s.Do("gsfa.GsfaReaderMultiepoch.GetBeforeUntilSlot", func() error {
+			_, err := multi.GetBeforeUntilSlot(ctx, pk, 1000, 7*432000, 0, fetch)
+			return err
+		})
+	}
 }
 
 // ---------------------------------------------------------------- transaction status metadata
